@@ -15,6 +15,16 @@ def parseTriple (j : Json) : Except String (Int × Int × Int) := do
   if a.size != 3 then throw "triple expected"
   return (← a[0]!.getInt?, ← a[1]!.getInt?, ← a[2]!.getInt?)
 
+/-- Canonical compact form of an element list (shared with harness/props/c09.py `compact`):
+`[]`, `{"from": a, "n": len}` for consecutive integers, otherwise the explicit list. -/
+def compact (xs : List Int) : Json :=
+  match xs with
+  | [] => Json.arr #[]
+  | a :: _ =>
+    if xs == (List.range xs.length).map (fun (j : Nat) => a + (j : Int)) then
+      Json.mkObj [("from", toJson a), ("n", toJson xs.length)]
+    else toJson xs
+
 /-- Observation of one data source over parts of the given sizes (elements are `0..n-1`). -/
 def dsCore (sizes : List Nat) (d : DS) : List (String × Json) :=
   let parts : List (List Int) :=
@@ -23,11 +33,11 @@ def dsCore (sizes : List Nat) (d : DS) : List (String × Json) :=
   [("start", toJson d.start), ("end", toJson d.end),
    ("len", match d.len with | .ok n => toJson n | .error e => Driver.errJson e),
    ("state", stateJson d.state),
-   ("elems", toJson (sliceElems parts (some d.start) (some d.end)))]
+   ("elems", compact (sliceElems parts (some d.start) (some d.end)))]
 
 def dsJson (sizes : List Nat) (d : DS) : Json :=
   let rt := match fromState d.dataLen d.state with
-    | .ok r => Json.mkObj (dsCore sizes r)
+    | .ok r => Json.mkObj ((dsCore sizes r).filter (·.1 != "state"))
     | .error e => Json.mkObj [("err", Driver.errJson e)]
   Json.mkObj (dsCore sizes d ++ [("rt", rt)])
 
